@@ -165,9 +165,25 @@ Record mha_in := mk_mha_in {
   mi_past_value : option (list Z);
   mi_mask : option (option (list Z)) }.  (* None: SDPA has no 4th input; Some None: mask of unknown shape *)
 
+(* The repair of C19:mha:mask-last-dim-broadcast / mask-batch-exceeds-query-batch (proposed_fixes/ready): after the mask
+   dims are bound, dims 0/1 must be 1 or the bound B / H, and a last dim of 1 is refused unless the key/value length is
+   known to be 1 (no past, Skv = 1).  Python compares ir dims: a symbolic dim never equals 1. *)
+Definition mask_lead_ok (bd' : bindings) : bool :=
+  match lookup bd' 8%nat, lookup bd' 9%nat, lookup bd' 0%nat, lookup bd' 3%nat with
+  | Some mb, Some mh, Some b, Some h => ((mb =? 1) || (mb =? b))%Z && ((mh =? 1) || (mh =? h))%Z
+  | _, _, _, _ => false
+  end.
+Definition mask_last_ok (has_past : bool) (bd' : bindings) : bool :=
+  match lookup bd' 11%nat with
+  | Some st => negb (st =? 1)%Z || (negb has_past && match lookup bd' 5%nat with Some skv => (skv =? 1)%Z | None => false end)
+  | None => false
+  end.
+
 (* MultiHeadAttention.check (self attention) + the guard of rewrite (num_heads must be an int).
+   [strict_mask] = false: the check as read at bbeff32 (mask dims 0, 1, 3 bound to fresh names, never compared);
+   true: with the repair above.  The harness probes which one the implementation is.
    Result: None = the rule does not fire; Some (num_heads, use_mask_broadcast). *)
-Definition mha_check_rewrite (i : mha_in) : option (Z * bool) :=
+Definition mha_check_rewrite (strict_mask : bool) (i : mha_in) : option (Z * bool) :=
   let b1 := check_shape (Some []) (mi_query i) [0; 1; 2]%nat in
   let b2 := check_shape b1 (mi_query4 i) [0; 1; 3; 4]%nat in
   let b3 := check_shape b2 (mi_key i) [0; 5; 2]%nat in
@@ -189,12 +205,17 @@ Definition mha_check_rewrite (i : mha_in) : option (Z * bool) :=
                 match bind_dims bd ms [8; 9; 10; 11]%nat with
                 | None => None
                 | Some bd' =>
+                    if strict_mask && negb (mask_lead_ok bd' && mask_last_ok (mi_has_past i) bd') then None else
                     match lookup bd' 10%nat, lookup bd' 1%nat with
                     | Some d2, Some s => mask_dim2_rule s d2
                     | _, _ => None
                     end
                 end
-            | 2%nat => match bind_dims bd ms [10; 11]%nat with Some _ => Some true | None => None end
+            | 2%nat =>
+                match bind_dims bd ms [10; 11]%nat with
+                | Some bd' => if strict_mask && negb (mask_last_ok (mi_has_past i) bd') then None else Some true
+                | None => None
+                end
             | _ => None
             end
         end in
@@ -236,7 +257,9 @@ Definition sdpa_via_mha_check (key_bhsd : bool) (q k v : option (list Z)) : opti
    mask_has_producer: the SDPA mask is computed by a node (as opposed to a graph input / initializer).
    mask_is_causal_pattern: the mask sub-graph is the causal pattern of _causal_mask.
    [strict_mask] selects what the code DOES (false: `match(...) is None` never rejects a structural mismatch) or what it
-   means to do (true).  Result: Some (num_heads, kv_num_heads, rotary_interleaved). *)
+   means to do (true).  [head16] = false: as read at bbeff32 (the head size is never looked at); true: the repair of
+   C19:gqa:head-size-not-multiple-of-16 (a static head size divisible by 16 is required).
+   Result: Some (num_heads, kv_num_heads, rotary_interleaved). *)
 Record gqa_in := mk_gqa_in {
   gi_query : option (list Z); gi_key : option (list Z); gi_value : option (list Z);
   gi_past_key : option (option (list Z)); gi_past_value : option (option (list Z));   (* None: absent *)
@@ -245,7 +268,7 @@ Record gqa_in := mk_gqa_in {
   gi_q_norm_twice : bool; gi_k_norm_twice : bool;
   gi_mask_has_producer : bool; gi_mask_is_causal_pattern : bool }.
 Definition dim_at (s : option (list Z)) (k : nat) : option Z := match s with Some l => nth_error l k | None => None end.
-Definition gqa_check_rewrite (strict_mask : bool) (i : gqa_in) : option (Z * Z * Z) :=
+Definition gqa_check_rewrite (strict_mask head16 : bool) (i : gqa_in) : option (Z * Z * Z) :=
   if gi_q_norm_twice i || gi_k_norm_twice i then None else
   let b1 := check_shape (Some []) (gi_query i) [0; 1; 2]%nat in
   let b2 := check_shape b1 (gi_key i) [0; 1; 3]%nat in
@@ -256,6 +279,7 @@ Definition gqa_check_rewrite (strict_mask : bool) (i : gqa_in) : option (Z * Z *
   | Some _, Some h, Some hkv =>
       if is_static h && is_static hkv && Z.eqb (gi_q_interleaved i) (gi_k_interleaved i)
          && gi_mask_has_producer i && (negb strict_mask || gi_mask_is_causal_pattern i)
+         && (negb head16 || match dim_at (gi_query4 i) 3 with Some dh => is_static dh && (dh mod 16 =? 0)%Z | None => false end)
       then Some (h, hkv, gi_q_interleaved i) else None
   | _, _, _ => None
   end.
@@ -311,15 +335,15 @@ Definition oz3_eqb (a b : option (Z * Z * Z)) : bool :=
   | _, _ => false
   end.
 Inductive attn_case :=
-  | CMha (i : mha_in) (observed : option (Z * bool))
+  | CMha (strict_mask : bool) (i : mha_in) (observed : option (Z * bool))
   | CSdpaMha (key_bhsd : bool) (q k v : option (list Z)) (observed : option Z)
-  | CGqa (i : gqa_in) (observed : option (Z * Z * Z))
+  | CGqa (head16 : bool) (i : gqa_in) (observed : option (Z * Z * Z))
   | CAtt (i : att_in) (observed : option (Z * Z * Z)).
 Definition attn_agrees (c : attn_case) : bool :=
   match c with
-  | CMha i obs => ozb_eqb (mha_check_rewrite i) obs
+  | CMha st i obs => ozb_eqb (mha_check_rewrite st i) obs
   | CSdpaMha kb q k v obs => oz_eq (sdpa_via_mha_check kb q k v) obs
-  | CGqa i obs => oz3_eqb (gqa_check_rewrite false i) obs
+  | CGqa h16 i obs => oz3_eqb (gqa_check_rewrite false h16 i) obs
   | CAtt i obs => oz3_eqb (att_check_rewrite i) obs
   end.
 Fixpoint attn_disagreeing (i : nat) (cs : list attn_case) : list nat :=
